@@ -69,7 +69,7 @@ except ImportError:
 
 class MPIException(Exception):
     def __init__(self, value):
-        Exception.__init__()
+        Exception.__init__(self, value)
         self.value = value
 
     def __str__(self):
@@ -245,7 +245,7 @@ if am_master:
         if id is None:
             id = numpy.random.uniform()
         if id in assigned:
-            raise MPIException("id ", str(id), " already in queue!")
+            raise MPIException("id " + str(id) + " already in queue!")
         if slave is not None and am_slave:
             raise MPIException(
                 "only the master can use slave= in submit_call()")
